@@ -32,3 +32,58 @@ func Read(b []byte) (int, error) {
 	}
 	return len(b), nil
 }
+
+// The rest of math/rand's top-level functions, deterministic like the ones above.
+
+func Int() int         { return int(uint(Int63())) }
+func Int31() int32     { return int32(Int63() >> 32) }
+func Uint32() uint32   { return uint32(Int63() >> 31) }
+func Uint64() uint64   { return simrt.Rand64("math/rand.Uint64") }
+func Float32() float32 { return float32(Float64()) }
+func Seed(int64)       {}
+func Int31n(n int32) int32 {
+	if n <= 0 {
+		panic("simrand: invalid argument to Int31n")
+	}
+	return int32(Int63n(int64(n)))
+}
+
+// Perm returns a deterministic pseudo-random permutation of [0, n).
+func Perm(n int) []int {
+	m := make([]int, n)
+	for i := 0; i < n; i++ {
+		j := Intn(i + 1)
+		m[i] = m[j]
+		m[j] = i
+	}
+	return m
+}
+
+// Shuffle pseudo-randomizes the order of elements deterministically.
+func Shuffle(n int, swap func(i, j int)) {
+	if n < 0 {
+		panic("simrand: invalid argument to Shuffle")
+	}
+	for i := n - 1; i > 0; i-- {
+		swap(i, Intn(i+1))
+	}
+}
+
+// NormFloat64 / ExpFloat64: deterministic values with roughly the right distribution (Box-Muller free: a sum of
+// uniforms / an inverse transform); nothing in the repository draws them, they exist so that a change which does builds.
+func NormFloat64() float64 {
+	s := 0.0
+	for i := 0; i < 12; i++ {
+		s += Float64()
+	}
+	return s - 6
+}
+func ExpFloat64() float64 {
+	u := Float64()
+	x := 0.0
+	// -ln(1-u) by series is overkill: bisect on a coarse table
+	for t := 1.0 - u; t < 1 && x < 40; x += 0.01 {
+		t *= 1.0100501670841679 // e^0.01
+	}
+	return x
+}
